@@ -1,6 +1,6 @@
 import DiscretModel.Lemmas.DailyLogRun
 import DiscretModel.Lemmas.DailyLogLazy
-import DiscretModel.Model.Sync
+import DiscretModel.Lemmas.SyncMarks
 /-
 C09 — the daily log is a function of the stored content, nothing else.
 
@@ -20,8 +20,9 @@ theorem C09_barrier {sigs : Content} {log : Log} (h : WInv sigs noPending log) :
 
 /-- **C09 (invariant over any schedule).** Starting from an empty database, after ANY sequence of writes
     (each marking the days whose signatures it changes, or relying on marks already collected by its batch),
-    end-of-batch mark writes and recomputations (processed with nothing pending), the invariant between
-    content, table and pending marks holds. No bound on the schedule, the batches or where recomputation is asked. -/
+    end-of-batch mark writes and recomputations — processed at ANY point, also in the middle of a batch whose
+    marks are not written yet — the invariant between content, table and pending marks holds. No bound on
+    the schedule, the batches or where recomputation is asked. -/
 theorem C09_invariant (steps : List Step) (hok : runOk Defects.none St.init steps) :
     WInv (run Defects.none St.init steps).sigs (pendOf (run Defects.none St.init steps).pend)
       (run Defects.none St.init steps).log :=
@@ -90,7 +91,7 @@ def twoDaysAtOnce : List Step :=
 
 /-- the schedules of the witnesses obey the marking discipline (so the theorems above apply to them) -/
 example : runOk Defects.none St.init twoDays := by
-  refine ⟨?_, trivial, rfl, ?_, trivial, rfl, trivial⟩
+  refine ⟨?_, trivial, trivial, ?_, trivial, trivial, trivial⟩
   · intro r e d h
     by_cases hk : k10 = { room := r, ent := e, day := d }
     · simp [pendOf, St.init, ← hk]
@@ -156,6 +157,38 @@ end Discret.DailyLog
 
 namespace Discret.Sync
 open Discret.DailyLog
+
+/-! ### the writes of the replica model obey the marking discipline (intended behaviour) -/
+
+/-- **C09 (local writes of the model).** Creation, update, room move, reference addition, reference deletion and
+    row deletion, planned on the state they are applied to, with the marks of `Defects.none`: the invariant
+    holds again once the marks are written. (Row ids are unique in the replica.) -/
+theorem C09_model_local_write (w : World) (cur : Replica) (hn : IdsNodup cur)
+    (h : WInv cur.sigs noPending cur.log) (p : Nat) (op : WOp) :
+    WInv (effectOf Defects.none w cur cur p op).cur.sigs noPending
+      (markAll (effectOf Defects.none w cur cur p op).marks (effectOf Defects.none w cur cur p op).cur.log) :=
+  effectOf_winv rfl w hn h p op
+
+/-- **C09 (synchronised row of the model).** Writing a fetched row over the locally stored version (`old`, of the
+    same entity) with the marks of `Defects.none` keeps the invariant and the uniqueness of row ids. -/
+theorem C09_model_synchronised_row (rights : List Bool) (r : Replica) (hn : IdsNodup r)
+    (h : WInv r.sigs noPending r.log) (n : Node) (old : Option Node) (ho : r.findId n.id = old)
+    (hent : ∀ o, old = some o → o.ent = n.ent) :
+    WInv (ingestNode Defects.none rights r n old).sigs noPending (ingestNode Defects.none rights r n old).log ∧
+      IdsNodup (ingestNode Defects.none rights r n old) :=
+  ⟨ingestNode_winv rfl rights hn h n old ho hent, ingestNode_idsNodup rights hn n old⟩
+
+/-- **C09 (synchronised deletion records of the model).** Applying a batch of received deletion records with the
+    marks of `Defects.none` keeps the invariant. -/
+theorem C09_model_synchronised_deletions (rights : List Bool) (r : Replica)
+    (h : WInv r.sigs noPending r.log) (ts : List NTomb) :
+    WInv (applyNTombs Defects.none rights r ts).sigs noPending (applyNTombs Defects.none rights r ts).log :=
+  applyNTombs_winv rfl rights h ts
+
+/-- **C09 (recomputation of the model).** … and a recomputation then yields the log of the stored content. -/
+theorem C09_model_compute (r : Replica) (h : WInv r.sigs noPending r.log) :
+    IsLogOf r.sigs (recompute Defects.none r.sigs r.log) :=
+  C09_barrier h
 
 /-! ### witnesses on the replica model: writes that change a day without marking it -/
 
